@@ -348,7 +348,7 @@ def session_check(ctx, module, theorems, prop, rotations=True, extra=None):
     for i, l in enumerate(lines):
         if i >= len(impl):
             break
-        fails = analyse(l, impl[i])
+        fails = {} if impl[i].startswith('<harness died') else analyse(l, impl[i])
         what = fails.get(prop) or fails.get('ALL')
         if what:
             prop_fail.add(i)
@@ -510,7 +510,7 @@ def check_c02(ctx):
     for i, l in enumerate(lines):
         if i >= len(impl):
             break
-        fails = analyse(l, impl[i])
+        fails = {} if impl[i].startswith('<harness died') else analyse(l, impl[i])
         what = fails.get('C02') or fails.get('ALL')
         if what:
             prop_fail.add(i)
